@@ -331,6 +331,28 @@ def main(tier):
             chk.violation("a second singleton child written after other children (%s) is accepted | document:\n%s" % (k, t),
                           {"kind": "fault", "fault": {"f": "dup_child", "i": 0, "x": k}, "via": "kernel", "doc": [], "main": t, "files": {}, "sites": [1],
                            "block_spans": [[0, len(t)]], "observed": o, "signature": sig}, sig)
+    # Tags without a parameter / naming an undeclared tag, at every level; where the URL-level list is never consulted (every
+    # method has its own Tags, or the URL has no method) the signature is that of F-20
+    tk = {}
+    for fault, par in (("missing_param", ""), ("undefined", " @znotag")):
+        tk[(fault, "http_method", "used")] = "JSIGHT 0.3\nGET /zt\n  Tags%s\n  200 any\n" % par
+        tk[(fault, "url_method", "used")] = "JSIGHT 0.3\nURL /zt\n  GET\n    Tags%s\n    200 any\n" % par
+        tk[(fault, "rpc_method", "used")] = "JSIGHT 0.3\nURL /zt\n  Protocol json-rpc-2.0\n  Method zm\n    Tags%s\n    Result\n    {}\n" % par
+        tk[(fault, "url_level_first", "used")] = "JSIGHT 0.3\nURL /zt\n  Tags%s\n  GET\n    200 any\n" % par
+        tk[(fault, "url_level_last", "used")] = "JSIGHT 0.3\nTAG @zdecl\nURL /zt\n  GET\n    Tags @zdecl\n    200 any\n  POST\n    200 any\n  Tags%s\n" % par
+        tk[(fault, "url_level_all_methods_tagged", "url_tags_shadowed")] = "JSIGHT 0.3\nTAG @zdecl\nURL /zt\n  Tags%s\n  GET\n    Tags @zdecl\n    200 any\n" % par
+        tk[(fault, "url_level_no_method", "url_tags_shadowed")] = "JSIGHT 0.3\nURL /zt\n  Tags%s\n" % par
+    tobs = harness("run", [rel.case("tk%d" % n, t) for n, t in enumerate(tk.values())])
+    for n, ((fault, where, use), t) in enumerate(tk.items()):
+        o = tobs["tk%d" % n]
+        chk.evaluations += 1
+        chk.traces += 1
+        chk.nontrivial.add("tags:%s:%s" % (fault, where))
+        if o["outcome"] != "error":
+            sig = {"fault": fault, "via": "kernel", "what": "not rejected", "block": "tag", "detail": use, "outcome": o["outcome"], "msg": "", "frames": ""}
+            chk.violation("a Tags directive %s (%s) is accepted | document:\n%s" % ("without a parameter" if fault == "missing_param" else "naming an undeclared tag", where, t),
+                          {"kind": "fault", "fault": {"f": fault, "i": 0, "x": where}, "via": "kernel", "doc": [], "main": t, "files": {}, "sites": [1],
+                           "block_spans": [[0, len(t)]], "observed": o, "signature": sig}, sig)
     # the directive that follows the text of a bare Description, its keyword directly followed by '#' or '//': a fault in
     # it is reported like anywhere else (the line is a directive line, not text)
     gk = {
